@@ -663,6 +663,224 @@ fn record(rep: &Report, ctx: Ctx, d: Dialect, calls: &[Call], sig: &str) {
     });
 }
 
+/// (iii) wide groups: an `any` / `all` group (plain and negated) of every width up to the bound, with the one member that
+/// decides the truth value at the first, the middle and the last position (all others are a second atom), and the same
+/// through that many `and_where` calls. A rendering that loses, reorders into another group or duplicates members of a wide
+/// group changes the truth table.
+fn wide_groups(rep: &Report, st: &Stats, max_width: usize) -> u64 {
+    let mut n = 0;
+    let mut cases: Vec<Vec<Call>> = vec![];
+    for w in 2..=max_width {
+        for pos in [0, w / 2, w - 1] {
+            let items: Vec<C> = (0..w).map(|i| if i == pos { C::Atom(0) } else { C::Atom(1) }).collect();
+            for any in [false, true] {
+                for neg in [false, true] {
+                    cases.push(vec![Call::Cond(C::Group { any, neg, items: items.clone() })]);
+                }
+            }
+            cases.push((0..w).map(|i| Call::And(if i == pos { 0 } else { 1 })).collect());
+        }
+    }
+    // widths ascend: the first failing width of a (context, dialect, signature, kind) is the one reported
+    let mut reported: std::collections::HashSet<String> = Default::default();
+    for calls in &cases {
+        for ctx in [Ctx::SelectWhere, Ctx::Having] {
+            for d in DIALECTS {
+                n += 1;
+                if let Err((sig, det)) = check_calls(ctx, d, calls, Some(st)) {
+                    rep.raw_failures.inc();
+                    let kind0 = match &calls[0] {
+                        Call::Cond(C::Group { any, neg, .. }) => format!("{neg}{any}"),
+                        _ => "calls".to_string(),
+                    };
+                    if !reported.insert(format!("{:?}|{}|{}|{}", ctx, d.name(), sig, kind0)) {
+                        continue;
+                    }
+                    let (w, kind) = match &calls[0] {
+                        Call::Cond(C::Group { any, neg, items }) => (items.len(), format!("{}{}", if *neg { "not " } else { "" }, if *any { "any" } else { "all" })),
+                        _ => (calls.len(), "and_where calls".to_string()),
+                    };
+                    let det: String = det.chars().take(400).collect();
+                    rep.violation(Violation {
+                        key: format!("{:?}|{}|{}|wide {} of {} members", ctx, d.name(), sig, kind, w),
+                        what: format!("{:?} on {}: {} with {} members: {}", ctx, d.name(), kind, w, det),
+                        case: json!({"ctx": format!("{:?}", ctx), "dialect": d.name(), "calls": calls_to_json(calls)}),
+                    });
+                }
+            }
+        }
+    }
+    n
+}
+
+/// (iv) the ON CONFLICT builder as a state machine: every sequence of up to 4 calls over condition-adding calls (action and
+/// target side) and action-setting calls (do_nothing, do_nothing_on, update_column, value). Conditions accumulate whatever
+/// happens to the action in between; the action is the last do_nothing, or DO UPDATE once an update call follows it. Each
+/// predicate must be the AND of the conditions given to ITS side (absent if none). DO NOTHING with action conditions is
+/// out of domain (there is no such statement).
+#[derive(Clone, Copy, Debug, PartialEq)]
+enum OcCall {
+    ActionAnd,
+    ActionCond,
+    ActionOption,
+    TargetAnd,
+    TargetCond,
+    DoNothing,
+    DoNothingOn,
+    UpdateColumn,
+    Value,
+}
+const OC_MENU: [OcCall; 9] = [OcCall::ActionAnd, OcCall::ActionCond, OcCall::ActionOption, OcCall::TargetAnd, OcCall::TargetCond, OcCall::DoNothing, OcCall::DoNothingOn, OcCall::UpdateColumn, OcCall::Value];
+
+fn oc_tree(c: OcCall) -> Option<(bool, C)> {
+    // (is action side, condition)
+    match c {
+        OcCall::ActionAnd => Some((true, C::Atom(0))),
+        OcCall::ActionCond => Some((true, C::Group { any: true, neg: false, items: vec![C::Atom(1), C::Atom(2)] })),
+        OcCall::ActionOption => Some((true, C::Atom(3))),
+        OcCall::TargetAnd => Some((false, C::Atom(2))),
+        OcCall::TargetCond => Some((false, C::Group { any: true, neg: false, items: vec![C::Atom(0), C::Atom(3)] })),
+        _ => None,
+    }
+}
+
+fn check_oc_sequence(d: Dialect, seq: &[OcCall], st: Option<&Stats>) -> Result<bool, (String, String)> {
+    let sql = catch(|| {
+        let mut oc = OnConflict::column(al("id"));
+        for c in seq {
+            match c {
+                OcCall::ActionAnd => {
+                    oc.action_and_where(atom_expr(0));
+                }
+                OcCall::ActionCond => {
+                    oc.action_cond_where(Cond::any().add(atom_expr(1)).add(atom_expr(2)));
+                }
+                OcCall::ActionOption => {
+                    oc.action_and_where_option(Some(atom_expr(3)));
+                }
+                OcCall::TargetAnd => {
+                    oc.target_and_where(atom_expr(2));
+                }
+                OcCall::TargetCond => {
+                    oc.target_cond_where(Cond::any().add(atom_expr(0)).add(atom_expr(3)));
+                }
+                OcCall::DoNothing => {
+                    oc.do_nothing();
+                }
+                OcCall::DoNothingOn => {
+                    oc.do_nothing_on([al("id")]);
+                }
+                OcCall::UpdateColumn => {
+                    oc.update_column(al("hit"));
+                }
+                OcCall::Value => {
+                    oc.value(al("hit"), Expr::col(al("hit")).add(1));
+                }
+            }
+        }
+        let mut s = Query::insert();
+        s.into_table(al("tv")).columns([al("id")]).values_panic([1.into()]).on_conflict(oc);
+        qb!(d, s)
+    })
+    .map_err(|p| ("panic".to_string(), format!("rendering panicked: {p}")))?;
+    // reference state
+    let mut update = false; // the action is DO UPDATE
+    let mut any_action = false;
+    for c in seq {
+        match c {
+            OcCall::DoNothing | OcCall::DoNothingOn => {
+                update = false;
+                any_action = true;
+            }
+            OcCall::UpdateColumn | OcCall::Value => {
+                update = true;
+                any_action = true;
+            }
+            _ => {}
+        }
+    }
+    let action_conds: Vec<C> = seq.iter().filter_map(|c| oc_tree(*c)).filter(|(a, _)| *a).map(|(_, t)| t).collect();
+    let target_conds: Vec<C> = seq.iter().filter_map(|c| oc_tree(*c)).filter(|(a, _)| !*a).map(|(_, t)| t).collect();
+    if !any_action || (!update && !action_conds.is_empty()) {
+        return Ok(false);
+    }
+    let Some(oc_at) = sql.find(" ON CONFLICT ") else { return Err(("clause-structure".into(), format!("no ON CONFLICT in {sql:?}"))) };
+    let tail = &sql[oc_at..];
+    let (before, after) = if update {
+        let Some(du) = tail.find(" DO UPDATE SET ") else { return Err(("clause-structure".into(), format!("the action is an update but there is no DO UPDATE SET in {sql:?}"))) };
+        (&tail[..du], &tail[du + " DO UPDATE SET ".len()..])
+    } else {
+        let Some(dn) = tail.find(" DO NOTHING") else { return Err(("clause-structure".into(), format!("the action is do-nothing but there is no DO NOTHING in {sql:?}"))) };
+        (&tail[..dn], &tail[dn + " DO NOTHING".len()..])
+    };
+    for (side, text, conds) in [("conflict target", before, &target_conds), ("action", after, &action_conds)] {
+        let pred = text.find(" WHERE ").map(|p| &text[p + " WHERE ".len()..]);
+        match (pred, conds.is_empty()) {
+            (None, true) => {}
+            (Some(_), true) => return Err(("clause-structure".into(), format!("the {side} was given no condition but has a WHERE: {sql:?}"))),
+            (None, false) => return Err(("predicate-missing".into(), format!("the {side} was given {} condition(s) but has no WHERE: {sql:?}", conds.len()))),
+            (Some(pred), false) => {
+                let parsed = parse_expression(d, pred).map_err(|e| ("unparsable".to_string(), format!("{sql:?}: {e}")))?;
+                if let Some(st) = st {
+                    st.parsed.inc();
+                }
+                for k in 0..81usize {
+                    let a = assignment(k);
+                    let mut want = T;
+                    for t in conds.iter() {
+                        if let Some(v) = eval(t, &a) {
+                            want = and3(want, v);
+                        }
+                    }
+                    let got = eval_pexpr(&parsed, &a).map_err(|e| ("unparsable".to_string(), format!("{sql:?}: {e}")))?;
+                    if (got == T) != (want == T) {
+                        return Err(("predicate-not-equivalent".into(), format!("the {side} predicate of {sql:?} is {:?} under {:?}, the AND of the conditions given to that side is {:?}", got, a, want)));
+                    }
+                }
+            }
+        }
+    }
+    Ok(true)
+}
+
+fn on_conflict_machine(rep: &Report, st: &Stats) -> (u64, u64) {
+    let mut seqs: Vec<Vec<OcCall>> = vec![];
+    let mut frontier: Vec<Vec<OcCall>> = vec![vec![]];
+    for _ in 0..4 {
+        let mut next = vec![];
+        for s in &frontier {
+            for c in OC_MENU {
+                let mut s2 = s.clone();
+                s2.push(c);
+                next.push(s2);
+            }
+        }
+        seqs.extend(next.iter().cloned());
+        frontier = next;
+    }
+    let (mut checked, mut ood) = (0u64, 0u64);
+    for s in &seqs {
+        for d in [Dialect::Postgres, Dialect::Sqlite] {
+            match check_oc_sequence(d, s, Some(st)) {
+                Ok(true) => checked += 1,
+                Ok(false) => ood += 1,
+                Err((sig, _)) => {
+                    checked += 1;
+                    rep.raw_failures.inc();
+                    let min = minimize(s.clone(), &sig, |v: &Vec<OcCall>| (0..v.len()).map(|i| { let mut w = v.clone(); w.remove(i); w }).collect(), |v| check_oc_sequence(d, v, None).err().map(|e| e.0));
+                    let det = check_oc_sequence(d, &min, None).err().map(|e| e.1).unwrap_or_default();
+                    rep.violation(Violation {
+                        key: format!("OnConflictBuilder|{}|{}|{:?}", d.name(), sig, min),
+                        what: format!("OnConflict calls {:?} on {}: {}", min, d.name(), det),
+                        case: json!({"oc_sequence": min.iter().map(|c| format!("{:?}", c)).collect::<Vec<_>>(), "dialect": d.name()}),
+                    });
+                }
+            }
+        }
+    }
+    (checked, ood)
+}
+
 pub fn run(rep: &Arc<Report>) {
     let (depth, width, budget) = if rep.thorough() { (3, 3, 8) } else { (3, 3, 7) };
     let st = Stats { engine: Counter::new(), parsed: Counter::new() };
@@ -895,6 +1113,15 @@ pub fn run(rep: &Arc<Report>) {
             }
         }
     });
+    let max_width = if rep.thorough() { 130 } else { 70 };
+    let wide = wide_groups(rep, &st, max_width);
+    evals.add(wide);
+    rep.set("wide_group_cases", json!(wide));
+    rep.set("wide_group_max_width", json!(max_width));
+    let (oc_checked, oc_ood) = on_conflict_machine(rep, &st);
+    evals.add(oc_checked);
+    rep.set("on_conflict_builder_sequences_checked", json!(oc_checked));
+    rep.set("on_conflict_builder_sequences_out_of_domain", json!(oc_ood));
     rep.set("tree_bound", json!({"depth": depth, "width": width, "max_nodes": budget}));
     rep.set("trees", json!(n_trees));
     rep.set("trees_in_other_contexts", json!(small.len()));
@@ -919,6 +1146,11 @@ pub fn run(rep: &Arc<Report>) {
 }
 
 pub fn replay(case: &serde_json::Value) -> Option<String> {
+    if let Some(seq) = case["oc_sequence"].as_array() {
+        let d = Dialect::from_name(case["dialect"].as_str().unwrap_or("sqlite"));
+        let calls: Vec<OcCall> = seq.iter().filter_map(|x| x.as_str().and_then(|n| OC_MENU.iter().copied().find(|c| format!("{:?}", c) == n))).collect();
+        return check_oc_sequence(d, &calls, None).err().map(|(sig, det)| format!("OnConflict calls {:?} on {}: [{sig}] {det}", calls, d.name()));
+    }
     let d = Dialect::from_name(case["dialect"].as_str().unwrap_or("sqlite"));
     let ctx = CTXS.iter().copied().find(|c| format!("{:?}", c) == case["ctx"].as_str().unwrap_or(""))?;
     let calls = calls_from_json(&case["calls"]);
